@@ -74,7 +74,7 @@ func c14(g *Gen) {
 	for i := 0; i < n; i++ {
 		c := g.c14cfg()
 		depth := 1 + g.R.Intn(4)
-		root := g.tyGen(TyOpts{Depth: depth, Interfaces: true, Funcs: true}, 0)
+		root := g.tyGen(TyOpts{Depth: depth, Interfaces: true, Funcs: true, Others: true}, 0)
 		subs := tySubterms(root, nil)
 		// call sequence: subterms and root in random order with repeats, one namer (one memo)
 		var order []*TNode
